@@ -176,9 +176,14 @@ pub fn strategy() -> impl proptest::strategy::Strategy<Value = SniCase> {
     use proptest::prelude::*;
     // host value: name (re-cased) with optional port
     let hostval = |names: &'static [&'static str]| {
-        (0..names.len(), prop_oneof![2 => Just(0u32), 1 => any::<u32>()], prop_oneof![2 => Just(None), 1 => Just(Some(443u16)), 1 => Just(Some(8443u16)), 1 => any::<u16>().prop_map(Some)])
-            .prop_map(move |(i, mask, port)| {
-                let n = recase(names[i], mask);
+        // a name from the table, or a generated DNS-style name of 1-4 labels
+        let name = prop_oneof![
+            3 => (0..names.len()).prop_map(move |i| names[i].to_string()),
+            2 => "[a-z0-9]([a-z0-9-]{0,10}[a-z0-9])?(\\.[a-z0-9]([a-z0-9-]{0,8}[a-z0-9])?){0,3}",
+        ];
+        (name, prop_oneof![2 => Just(0u32), 1 => any::<u32>()], prop_oneof![2 => Just(None), 1 => Just(Some(443u16)), 1 => Just(Some(8443u16)), 1 => any::<u16>().prop_map(Some)])
+            .prop_map(move |(name, mask, port)| {
+                let n = recase(&name, mask);
                 match port {
                     Some(p) => format!("{n}:{p}"),
                     None => n,
@@ -189,8 +194,8 @@ pub fn strategy() -> impl proptest::strategy::Strategy<Value = SniCase> {
         0u8..5,
         prop_oneof![1 => Just(None), 4 => hostval(NAMES).prop_map(Some)],
         prop_oneof![2 => Just(None), 2 => hostval(NAMES).prop_map(Some)],
-        // relation of the server name to the named host is decided below
-        0u8..6,
+        // relation of the server name to the named host is decided below (6..10: near misses)
+        prop_oneof![6 => 0u8..6, 3 => 6u8..10],
         (0..NAMES.len(), any::<u32>()),
         prop_oneof![9 => Just(true), 1 => Just(false)],
     )
@@ -202,6 +207,18 @@ pub fn strategy() -> impl proptest::strategy::Strategy<Value = SniCase> {
                 (1 | 2, Some(n)) => Some(host_part(n).to_string()),
                 (3, Some(n)) => Some(host_part(n).to_ascii_lowercase()),
                 (4, Some(n)) => Some(recase(host_part(n), mask)),
+                // near misses: one more / one fewer character at either end, one character replaced
+                (6, Some(n)) => Some(format!("{}x", host_part(n).to_ascii_lowercase())),
+                (7, Some(n)) => Some(format!("x{}", host_part(n).to_ascii_lowercase())),
+                (8, Some(n)) => {
+                    let h = host_part(n).to_ascii_lowercase();
+                    Some(h[..h.len().saturating_sub(1)].to_string()).filter(|s| !s.is_empty())
+                }
+                (9, Some(n)) => {
+                    let h = host_part(n).to_ascii_lowercase();
+                    let k = (mask as usize) % h.len().max(1);
+                    Some(h.chars().enumerate().map(|(i, c)| if i == k { if c == 'q' { 'z' } else { 'q' } } else { c }).collect())
+                }
                 _ => Some(NAMES[other].to_string()),
             };
             // server names are DNS names or bare literals as a TLS stack would report them; a
